@@ -133,7 +133,9 @@ def run(tier, seed, replay=None):
         if bad:
             uncovered = [b for b in bad if "not marked occupied" in b and "cellPointsShareX=true" in b]
             slack = [b for b in bad if "[within the 1e-4 truncation slack]" in b]
-            rept = [b for b in bad if "[composite repeats a component]" in b]
+            # (the tag is put on every failure of a glyph whose components repeat: a failure that one of the other two
+            # findings explains is theirs)
+            rept = [b for b in bad if "[composite repeats a component]" in b and b not in uncovered and b not in slack]
             other = [b for b in bad if b not in uncovered and b not in slack and b not in rept]
             if rept:
                 rep.violation("c%04d-repeat" % i, {"lines": rept[:5], "gdl": gdl}, signature=KF3_SIG)
